@@ -12,6 +12,7 @@ mod c05;
 mod c13;
 mod c04;
 mod c01;
+mod c06;
 
 fn main() {
     // silence the default panic message: panics are observations here
@@ -28,7 +29,8 @@ fn main() {
         "c10" | "c11" => c10::run(rest),
         "c05" | "c14" => c05::run(rest),
         "c13" => c13::run(rest),
-        "c04" | "c07" => c04::run(rest),
+        "c04" => c04::run(rest),
+        "c06" | "c07" => c06::run(rest),
         "c01" | "c02" => c01::run(rest),
         other => {
             eprintln!("unknown subcommand {other}");
